@@ -322,6 +322,21 @@ def run(st, tier, seed):
                     res.violations.append({"what": "template %s declares 2 parameters, the instance passes %r, and the compiler produced output" % (b.entry, argtext),
                                            "input": {"files": dict(files, **{"Wrap.sys": wrapper(argtext)}), "entry": "Wrap", "includes": b.includes},
                                            "sig": "C09:arity:nested", "cmd": "pepper-compiler Wrap"})
+            # the same for the PORT lists of the instance: one signal too few / too many on the input side only, or on the output side only
+            for what_, ins_, outs_ in (("one input fewer", sigs[:n_in][:-1], sigs[n_in:]), ("one output fewer", sigs[:n_in], sigs[n_in:][:-1]),
+                                       ("one input more", sigs[:n_in] + ["qx"], sigs[n_in:]), ("one output more", sigs[:n_in], sigs[n_in:] + ["qx"])):
+                if (ins_, outs_) == (sigs[:n_in], sigs[n_in:]):
+                    continue      # nothing to take away on that side
+                wtext = "declare system Wrap: ->\nimport %s\ncomponent w = %s(1, 2): %s -> %s\n" % (b.entry, b.entry, " + ".join(ins_), " + ".join(outs_))
+                with open(os.path.join(d, "Wrap.sys"), "w") as f:
+                    f.write(wtext)
+                out = compile_dir(d, "Wrap", [], b.includes)
+                res.evaluations += 1
+                res.count("arity:ports:%s:%s" % (what_, "accepted" if out is not None else "rejected"))
+                if out is not None:
+                    res.violations.append({"what": "template %s declares %d input and %d output ports, the instance binds %d and %d (%s), and the compiler produced output" % (b.entry, n_in, n_out, len(ins_), len(outs_), what_),
+                                           "input": {"files": dict(files, **{"Wrap.sys": wtext}), "entry": "Wrap", "includes": b.includes},
+                                           "sig": "C09:arity:ports", "cmd": "pepper-compiler Wrap"})
     # directed: a user name of the reserved form _Anon<k> that clashes with the k-th anonymous region of the process
     # (defect F16: the strand silently referred to the user's sequence); must be rejected or well formed
     for k in range(6 if tier == "quick" else 40):
